@@ -109,6 +109,34 @@ fn build(r: &mut Rng64) -> (World, String) {
             let _ = node.call(Op::AddBroadcast(make_item(100 + i as u32, i as u8, 1, 12, 0x55)));
         }
     }
+    // a past: some members have refuted a suspicion before (whatever they sent then is long gone), and some have
+    // learned the current incarnation of others from a Feed (the reply to an Announce) rather than from gossip
+    if r.chance(1, 2) {
+        for i in 0..n {
+            if nodes[i].last.snap.connection_state != 2 && r.chance(1, 3) {
+                let me = nodes[i].id();
+                let inc = nodes[i].last.snap.incarnation;
+                let _ = nodes[i].call(Op::Apply(vec![Member::new(me, inc, State::Suspect)], true));
+                desc.push_str(&format!("[{i} has refuted a suspicion] "));
+            }
+        }
+        if n >= 3 {
+            for i in 0..n {
+                for j in 0..n {
+                    if i == j || !r.chance(1, 3) {
+                        continue;
+                    }
+                    let c = (0..n).find(|x| *x != i && *x != j).unwrap();
+                    let (idc, incc) = (nodes[c].id(), nodes[c].last.snap.incarnation);
+                    let (idj, incj) = (nodes[j].id(), nodes[j].last.snap.incarnation);
+                    let h = Header { src: Id::new(idc.addr, idc.gen), src_incarnation: incc, dst: nodes[i].id(), message: Message::Feed };
+                    let d = wire::build(codec, &h, Some(&[Member::new(Id::new(idj.addr, idj.gen), incj, State::Alive)]), &[]);
+                    let _ = nodes[i].call(Op::Data(d));
+                    desc.push_str(&format!("[{i} was fed {j}@inc{incj} by {c}] "));
+                }
+            }
+        }
+    }
     let k = cfg.k;
     (World { nodes, codec, k, victim_world }, desc)
 }
